@@ -30,7 +30,7 @@ pub static DEF: PropDef = PropDef {
         "panics are injected into C-API calls only while the model says the catcher is installed and enabled on that task (otherwise unwinding into extern \"C\" aborts by language rule)",
         "a failing call must replace the calling thread's last-error message; a succeeding call leaves it unchanged",
     ],
-    required_probes: &["c20.parse_ok", "c20.parse_err", "c20.nul_in_error", "c20.non_utf8", "c20.match_ok", "c20.status_panic", "c20.setter_fail", "c20.deser_fail", "c20.cross_task_error", "c20.hash", "c20.parse_panic", "c20.compile_panic"],
+    required_probes: &["c20.parse_ok", "c20.parse_err", "c20.nul_in_error", "c20.non_utf8", "c20.match_ok", "c20.status_panic", "c20.setter_fail", "c20.deser_fail", "c20.cross_task_error", "c20.hash", "c20.parse_panic", "c20.compile_panic", "c20.match_foreign"],
     extra: None,
 };
 
@@ -78,6 +78,8 @@ enum Call {
     MatchMissingMandatory,
     ParseBoom(u32),
     CompileBoom,
+    /// match a filter compiled for a structurally identical but distinct scheme: an error, never an evaluation
+    MatchForeign,
     ClearLastError,
     EnableCatcher,
     DisableCatcher,
@@ -94,6 +96,7 @@ struct Shared {
     shared_expect: Result<bool, String>,
     boom_filter_text: Option<String>,
     mandatory_filter_text: Option<String>,
+    foreign_filter: ffi::Filter,
 }
 
 static FAIL_EPOCH: std::sync::atomic::AtomicU64 = std::sync::atomic::AtomicU64::new(0);
@@ -379,6 +382,8 @@ fn do_call(st: &mut TaskState, sh: &Shared, call: &Call) {
                             st.ok_calls += 1;
                             if !got {
                                 mismatch(st, fname, "result", format!("{n:?}: Rust API Ok, C API false"));
+                            } else if **st.ctx != st.shadow {
+                                mismatch(st, fname, "state", format!("{n:?}: after the setter the C context holds {} but the Rust API context holds {}", serde_json::to_string(&**st.ctx).unwrap_or_default(), serde_json::to_string(&st.shadow).unwrap_or_default()));
                             }
                         }
                         Err(e) => {
@@ -581,6 +586,16 @@ fn do_call(st: &mut TaskState, sh: &Shared, call: &Call) {
             }
             verify_last_error(st, fname);
         }
+        Call::MatchForeign => {
+            let fname = "wirefilter_match";
+            let r = ffi::wirefilter_match(&sh.foreign_filter, &st.ctx);
+            kernel::count("c20.match_foreign");
+            if r.status != Status::Error || r.matched {
+                mismatch(st, fname, "foreign-scheme", format!("a filter of another (structurally identical) scheme gave {:?}/{}", r.status, r.matched));
+            }
+            failing(st, fname, ExpErr::Exact(subst(&wirefilter::SchemeMismatchError.to_string())));
+            verify_last_error(st, fname);
+        }
         Call::ParseBoom(nth) => {
             // a user function's parse-time callback (check_param) panics inside wirefilter_parse_filter
             let fname = "wirefilter_parse_filter";
@@ -693,8 +708,25 @@ fn gen_name(spec: &SchemeSpec) -> Vec<u8> {
 
 fn gen_text(spec: &SchemeSpec, pool: &[MValue]) -> Vec<u8> {
     let good = wgen::gen_filter(spec, pool, 2).unwrap_or_else(|| "ssl".to_string());
-    match choose_w(&[8, 2, 2, 1, 1, 1], "text.kind") {
+    match choose_w(&[8, 2, 2, 1, 1, 1, 1], "text.kind") {
         0 => good.into_bytes(),
+        6 => {
+            // a long filter (JSON well beyond common buffer sizes) with non-ASCII literals
+            let n = range(20, 70, "text.long_n");
+            let mut parts = vec![good];
+            for i in 0..n {
+                let lit = ["é", "naïve-€", "plain", "\u{1F600}"][i % 4];
+                match wgen::gen_filter(spec, pool, 1) {
+                    Some(f) if i % 3 != 0 => parts.push(format!("({f})")),
+                    _ => {
+                        if let Some((name, _, _)) = spec.fields.iter().find(|(_, t, _)| *t == MType::Bytes) {
+                            parts.push(format!("{name} == \"{lit}{i}\""));
+                        }
+                    }
+                }
+            }
+            parts.join(" or ").into_bytes()
+        }
         1 => {
             // ill-typed / unknown
             let pool = ["http.host > 3", "tcp.port == \"x\"", "nope == 1", "ssl and", "http.host matches \"(\"", "ip.src in {1}", ""];
@@ -752,7 +784,7 @@ fn gen_text(spec: &SchemeSpec, pool: &[MValue]) -> Vec<u8> {
 fn gen_calls(spec: &SchemeSpec, pool: &[MValue], n: usize, docs: &[Doc]) -> Vec<Call> {
     let mut out = Vec::new();
     for _ in 0..n {
-        let c = match choose_w(&[8, 2, 2, 2, 2, 4, 6, 3, 2, 3, 5, 3, 2, 2, 2, 2, 2, 1, 1, 2, 1], "call.kind") {
+        let c = match choose_w(&[8, 2, 2, 2, 2, 4, 6, 3, 2, 3, 5, 3, 2, 2, 2, 2, 2, 1, 1, 2, 1, 1], "call.kind") {
             0 => Call::Parse(gen_text(spec, pool)),
             1 => Call::SerializeAst,
             2 => Call::Hash,
@@ -804,7 +836,8 @@ fn gen_calls(spec: &SchemeSpec, pool: &[MValue], n: usize, docs: &[Doc]) -> Vec<
             17 => Call::BadFallbackMode(2 + choose(250, "fb.mode") as u8),
             18 => Call::SchemeJson,
             19 => Call::ParseBoom(1 + choose(2, "pboom.nth") as u32),
-            _ => Call::CompileBoom,
+            20 => Call::CompileBoom,
+            _ => Call::MatchForeign,
         };
         out.push(c);
     }
@@ -950,7 +983,13 @@ fn run(ctx: &RunCtx) -> Result<(), Violation> {
         format!("boom({f}) == \"x\" or boom({f}) != \"y\"")
     });
     let mandatory_filter_text = spec.fields.iter().find(|(_, t, o)| !*o && matches!(t, MType::Int)).map(|(n, _, _)| format!("{n} == 1"));
+    let twin = spec.build();
+    let foreign_filter = {
+        let t = twin.parse(&shared_filter_text).unwrap_or_else(|_| twin.parse("ssl").expect("twin parse"));
+        ffi::Filter::from(t.compile())
+    };
     let sh = Arc::new(Shared {
+        foreign_filter,
         scheme,
         spec: spec.clone(),
         shared_filter: ffi::Filter::from(shared_ast.compile()),
